@@ -187,7 +187,11 @@ theorem outcome_eq_fresh_on (P : A' → List (N × C) → Prop)
 /-- THE PROPERTY, conditional: if the runtime pre-image (as `RuntimeHash` writes it) determines the runtime
     inputs — and the rule / path pre-images are injective as C01 needs for the build phase — then after ANY
     history the outcome reported for every requested test by `plz test` (any flags) equals the outcome of a
-    fresh run of the same tree in an empty directory. -/
+    fresh run of the same tree in an empty directory.
+    NOTE (audit): on the pinned tree the hypothesis `hRT` is FALSE already for identity pre-images
+    (`C11_witness_runtimeSer_not_injective`: `RuntimeHash` does not hash file names), so this theorem cannot be
+    instantiated on the code as it is; it describes the code once names are hashed.  The statement that applies
+    today is `C11_outcome_eq_fresh_partial`. -/
 theorem C11_outcome_eq_fresh (hR : Function.Injective ruleSer) (hP : Function.Injective pathSer)
     (hRT : InjOn (G := G) TestCache.generatedFacts ruleSerRT pathSer (fun (_ : A') (_ : List (N × C)) => True))
     (history : List (TOp K A F N C S H A' G (RStamp S' G N H))) (r : TRepo K A F N C A' G) (sel tsel : K → Bool) (fl : Flags)
@@ -334,7 +338,8 @@ theorem C11_cache_restores_earlier_pass :
 
 /-! ### Non-vacuity -/
 
--- the hypotheses of `C11_outcome_eq_fresh` are satisfiable: with names hashed and identity pre-images
+-- `hRT` of `C11_outcome_eq_fresh` is satisfiable for a facts record that hashes names (NOT today's record, for which
+-- it is refuted above) and identity pre-images
 example : InjOn (G := Nat) (A' := Nat) (N := Nat) (C := Nat) { TestCache.Facts.asCoded with hashesNames := true } id id (fun (_ : Nat) (_ : List (Nat × Nat)) => True) :=
   injOn_of_hashesNames _ id id rfl rfl rfl (fun _ _ h => h) (fun _ _ h => h)
 
